@@ -168,7 +168,7 @@ func (w *raceWatch) fresh() string {
 func init() {
 	vc.Register(&vc.Check{
 		ID: "C18", Level: "model_checking", SingleProc: true,
-		Rule: "the scenario families of C06 (schedules), C09, C11, C12 and C13 are explored in the -race build: every schedule within the deviation bound (1 quick, 2 thorough) is executed under the Go race runtime, token hand-offs hidden (RaceDisable) and exactly the program's own happens-before edges re-created (channel send/receive/close, unbuffered rendezvous, sync.Once, go statement); " +
+		Rule: "the scenario families of C06 (schedules), C09, C11, C12 and C13 are explored in the -race build: every schedule within the deviation bound (2 quick, 3 thorough) is executed under the Go race runtime, token hand-offs hidden (RaceDisable) and exactly the program's own happens-before edges re-created (channel send/receive/close, unbuffered rendezvous, sync.Once, go statement); " +
 			"the idiom corpus (race-free idioms silent, seeded races reported) is run first as a self-test. Non-trivial = schedule with >=1 deviation",
 		Assumptions: []string{"the race runtime keeps 4 shadow cells per 8 bytes and de-duplicates reports by stack pair: a race can be missed, never invented",
 			"incidental synchronisation inside the standard library (sync.Pool in fmt) can hide a race in individual executions", "socket Read/Write/Close carry no happens-before edges (the net package documents none)"},
@@ -225,9 +225,9 @@ func c18Run(ctx *vc.Ctx, rep *vc.Report) {
 	if b, err := os.ReadFile(w.path); err == nil {
 		w.off = int64(len(b)) // skip the self-test's seeded races
 	}
-	bound := 1
+	bound := 2
 	if ctx.Thorough() {
-		bound = 2
+		bound = 3
 	}
 	one := func(family, name string, scn any, mk func() (func(), any)) {
 		if ctx.Expired() || rep.TooMany() {
